@@ -7,6 +7,8 @@ LEVEL = ("bounded symbolic execution of the repository's own functions on z3 pro
          "explored path: within the stated instantiation family and integer ranges the solver's verdict covers every value of "
          "the symbolic inputs; counterexamples are replayed on the unpatched code before being reported. %s")
 CHECKS = {
+ "C02": ("§3 C02", "symbolic: all leaf values and all auxiliary columns within bounds; instantiated (M7): skeletons, thresholds, boxes, negation route", "M7 real FFI on concrete model parameters; reference truth function written in the harness; converse only asked for solver-safe skeletons"),
+ "C01": ("§3 C01", "symbolic: the whole leaf assignment (incl. 16-bit ranges), evaluate_propositions executed symbolically; instantiated (M7, real Rust encoder): skeletons, thresholds, signs, boxes", "M7 real FFI on concrete model parameters; M4, M5; model parameters enumerated, not solver-quantified"),
  "C08": ("§3 C08", "symbolic: thresholds, signs, every leaf box (fixed-or-not is a fork), assumption presence/constants, leaf values; instantiated: skeletons, compound-bounds patterns", "M4, M5 structural, M6, M10"),
  "C07": ("§3 C07", "symbolic: thresholds, signs, boxes, assumption presence flags and values (constants, sub-ranges, compound constants), remaining leaf values; instantiated: skeletons, assumed-id subsets, value forms", "M4, M5 structural, M6, M10"),
  "C06": ("§3 C06", "symbolic: thresholds, signs, leaf boxes, per-leaf presence flag, interval and completion, child valuations for the flags; instantiated: skeletons, presence patterns, value forms", "M4, M5 structural, M6, M10"),
